@@ -108,7 +108,7 @@ def fold_rule(prog, rep):
     # seed: acc = [] ; if events: acc.append(events.pop(0))   |  acc = [events[0]] ... for h in events[1:]
     seed_ok = False
     it = norm(lp.iter)
-    pre = [s for s in fi.node.body if s.lineno < lp.lineno]
+    pre = fi.node.body[: next(i_ for i_, s_ in enumerate(fi.node.body) if s_ is lp)]
     pre_txt = [norm(s) for s in pre]
     if f"{acc} = []" in pre_txt and any(t == f"if {ev}: {acc}.append({ev}.pop(0))" or t.replace("\n", " ") == f"if {ev}: {acc}.append({ev}.pop(0))" for t in [" ".join(x.split()) for x in pre_txt]) and it == ev:
         seed_ok = True
@@ -120,6 +120,18 @@ def fold_rule(prog, rep):
         # tolerate formatting: look structurally
         for s in pre:
             if isinstance(s, ast.If) and norm(s.test) == ev and len(s.body) == 1 and norm(s.body[0]) == f"{acc}.append({ev}.pop(0))" and it == ev and f"{acc} = []" in pre_txt:
+                seed_ok = True
+    if not seed_ok:
+        # through single-assignment locals: acc = seed; seed = [events.pop(0)] behind `if not events: return []`
+        from ..trace import deep as _deep8
+
+        inits = [s_ for s_ in pre if isinstance(s_, ast.Assign) and len(s_.targets) == 1 and norm(s_.targets[0]) == acc]
+        if len(inits) == 1:
+            iv = norm(_deep8(inits[0].value, fi))
+            guarded = any(isinstance(s_, ast.If) and norm(s_.test) in (f"not {ev}", f"len({ev}) == 0", f"len({ev}) < 1") and any(isinstance(x, ast.Return) for x in s_.body) and pre.index(s_) < pre.index(inits[0]) for s_ in pre)
+            if iv == f"[{ev}.pop(0)]" and it == ev and guarded:
+                seed_ok = True
+            elif iv in (f"[{ev}[0]]", f"{ev}[:1]") and it == f"{ev}[1:]":
                 seed_ok = True
     rep.check(seed_ok, "FOLD", fi.short, "seed", "accumulator starts with the first element; the loop ranges over the rest in order", f"accumulator seed / iteration is not 'first element, then the rest in order' (pre: {pre_txt}, iter: {it})", fi.loc())
     # body
@@ -154,7 +166,7 @@ def fold_rule(prog, rep):
     no_t = [norm(s) for s in no if not (isinstance(s, ast.Expr) and isinstance(s.value, ast.Constant))]
     rep.check(yes_t == [f"{acc}[-1] = {mv}"], "FOLD", fi.short, "merged branch", f"{acc}[-1] = {mv}", f"on a successful merge the loop does `{'; '.join(yes_t)}` instead of replacing the last accumulated event", fi.loc(ifs[0]), expected=f"{acc}[-1] = {mv}", found="; ".join(yes_t))
     rep.check(no_t == [f"{acc}.append({hv})"], "FOLD", fi.short, "unmerged branch", f"{acc}.append({hv})", f"when the merge fails the loop does `{'; '.join(no_t)}` instead of appending the heartbeat", fi.loc(ifs[0]), expected=f"{acc}.append({hv})", found="; ".join(no_t))
-    post = [s for s in fi.node.body if s.lineno > lp.lineno and not isinstance(s, ast.Return)]
+    post = [s for s in fi.node.body[next(i_ for i_, s_ in enumerate(fi.node.body) if s_ is lp) + 1 :] if not isinstance(s, ast.Return)]
     rep.check(not post, "FOLD", fi.short, "after the loop", "nothing between loop and return", f"statements after the fold touch the result: {[norm(s)[:40] for s in post]}", fi.loc())
 
 
